@@ -9,7 +9,7 @@ from proto import T
 
 RULE = ('random lists of (key, aliases, flag) entries (aliases of several words, two in five with parentheses) - about half deliberately '
         'ambiguous (same key in another case, an alias shared by two keys in another case / spacing, also around parentheses, an alias equal to another key, '
-        'an operator word as alias) - each in 3 entry orders and in 5 representations (key strings where possible, objects of a plain class, named tuples with the fields in another order or with an extra field, LicenseSymbol '
+        'an operator word as alias) - each in 3 entry orders and in 8 representations (lists and one-shot iterables; key strings where possible, objects of a plain class, named tuples with the fields in another order or with an extra field, LicenseSymbol '
         'objects, arbitrary objects with key/aliases/is_exception); Spec: Licensing() raises ValueError exactly when the table is '
         'Ambiguous (the order-free definition in Lean), the same in every order and representation, an accepted table is unambiguous for the matcher too (namesUniqueB in Lean: no word sequence stored for two licenses), and accepted tables answer '
         'parse / license_keys / validate identically in every representation; correspondence: the order-dependent bookkeeping of '
@@ -36,6 +36,12 @@ def build(table, rep):
         return le.Licensing([Row(k, ex, tuple(al)) for k, al, ex in table])
     if rep == 'rows4':
         return le.Licensing([Row4(k, 'The ' + k, tuple(al), ex) for k, al, ex in table])
+    if rep == 'gen-symbols':      # a table handed over as a one-shot iterable
+        return le.Licensing(s for s in impl.table_objs(table))
+    if rep == 'iter-objects':
+        return le.Licensing(iter([Obj(k, al, ex) for k, al, ex in table]))
+    if rep == 'map-strings':
+        return le.Licensing(map(str, [k for k, al, ex in table]))
     if rep == 'symbols':
         return le.Licensing(impl.table_objs(table))
     if rep == 'objects':
@@ -96,7 +102,7 @@ class Prop(BaseProp):
         plain = all(not al and not ex for k, al, ex in table)
         lics = {}
         for oi, t in enumerate(orders):
-            for rep in ['symbols', 'objects', 'rows', 'rows4'] + (['strings'] if plain else []):
+            for rep in ['symbols', 'objects', 'rows', 'rows4', 'gen-symbols', 'iter-objects'] + (['strings', 'map-strings'] if plain else []):
                 v, lic = verdict(t, rep)
                 if v.startswith('other'):
                     return Verdict('spec', case, 'constructor raised %s (order %d, %s)' % (v, oi, rep), tags=tags)
